@@ -69,6 +69,48 @@ def _base_column(rng, nr, n):
     return kind, x * scale + loc
 
 
+def _standardised(nr, src):
+    sd = float(np.std(src))
+    if not sd > 0 or not np.isfinite(sd):
+        return nr.randn(len(src))
+    return (src - float(np.mean(src))) / sd
+
+
+def tiny_spread_column(rng, nr, src):
+    """NON-constant column whose spread is tiny relative to its magnitude (or tiny in absolute terms):
+    epoch timestamps within hours, level 1000 + 1e-3*y, readings in 1e-9 units, large serial numbers."""
+    n = len(src)
+    z = 0.8 * _standardised(nr, src) + 0.6 * nr.randn(n)
+    kind = rng.choice(['epoch', 'level', 'nano', 'serial'])
+    if kind == 'epoch':
+        x = 1.7e9 + np.round(3 * 3600 * (0.5 + 0.2 * z))
+    elif kind == 'level':
+        x = 1000.0 + 1e-3 * z
+    elif kind == 'nano':
+        x = 1e-9 * (3.0 + z)
+    else:
+        x = 5e8 + 3.0 * np.argsort(np.argsort(z))
+    x = np.asarray(x, dtype=float)
+    if len(np.unique(x)) < 2:
+        x[0] = np.nextafter(x[0], np.inf)
+    return x
+
+
+def outlier_column(rng, nr, src):
+    """roughly normal column (correlated with src) with ONE far-tail observation at 5.3 - 7.5 FITTED standard
+    deviations (needs n > z^2; for small n the largest reachable z is used)."""
+    n = len(src)
+    y = 0.7 * _standardised(nr, src) + 0.7 * nr.randn(n)
+    y = (y - y.mean()) / y.std()
+    zmax = 0.93 * (n - 1) / math.sqrt(n)
+    z = min(rng.uniform(5.4, 7.5), zmax)
+    k = z / math.sqrt(max(1e-9, 1.0 - z * z / n))          # raw offset giving fitted z-score ~ z
+    y[rng.randrange(n)] = k if rng.random() < 0.5 else -k
+    a = rng.choice([1.0, 2.0, 100.0, 0.01])
+    b = rng.choice([0.0, 10.0, -3.0])
+    return a * y + b
+
+
 def gen_table(rng, nr, quick_rows=False):
     """-> (names, dict name -> ndarray, kinds list).  Column order = list order (not sorted)."""
     k = rng.choice([2, 3, 3, 4, 4, 5, 6])
@@ -83,7 +125,7 @@ def gen_table(rng, nr, quick_rows=False):
     while len(cols) < k:
         src = cols[rng.randrange(len(cols))]
         d = rng.choice(['dup', 'neg', 'affine', 'affine', 'sum', 'const', 'const', 'nearconst', 'nearconst',
-                        'noisy', 'base'])
+                        'noisy', 'base', 'tinyspread', 'tinyspread', 'outlier'])
         if d == 'dup':
             x = src.copy()
         elif d == 'neg':
@@ -107,6 +149,10 @@ def gen_table(rng, nr, quick_rows=False):
                     x[rng.randrange(n)] = c + rng.choice([1.0, -0.5, 1e-6])
         elif d == 'noisy':
             x = src + 10.0 ** rng.choice([-6, -2, 0]) * float(np.std(src) + 1e-12) * nr.randn(n)
+        elif d == 'tinyspread':
+            x = tiny_spread_column(rng, nr, src)
+        elif d == 'outlier':
+            x = outlier_column(rng, nr, src)
         else:
             kd, x = _base_column(rng, nr, n)
             d = 'base:' + kd
@@ -410,8 +456,7 @@ def oracle(names, cols, spec):
     off = C - np.diag(np.diag(C))
     if np.max(np.abs(off)) > 1.0 + 1e-12:
         out.append(('fit:range', float(np.max(np.abs(off))), 'entries in [-1, 1]'))
-    with np.errstate(all='ignore'):
-        S = np.asarray(model._transform_to_normal(X), dtype=float)
+    Sref = reference_scores(model, X)
     for i in range(k):
         dgi = float(C[i, i])
         if const[i]:
@@ -422,11 +467,18 @@ def oracle(names, cols, spec):
                             'a constant column has zero correlation with everything (up to the ridge on its '
                             'diagonal entry)'))
         elif abs(dgi - 1.0) > RIDGE_TOL:
-            s = S[:, i]
-            why = 'scores-nan' if np.isnan(s).all() else ('scores-constant' if np.nanmax(s) == np.nanmin(s)
-                                                           else 'other')
+            s = Sref[:, i]
+            if in_constant_mode(model.univariates[i]):
+                why = 'fitted-as-constant'       # >1 distinct values, yet the marginal is the degenerate point mass
+            elif np.isnan(s).all():
+                why = 'scores-nan'
+            elif np.nanmax(s) == np.nanmin(s):
+                why = 'scores-constant'          # a genuine non-constant model whose scores collapsed (degenerate MLE)
+            else:
+                why = 'other'
             out.append((f'fit:diag-nonconstant-column:{why}',
                         {'column': repr(names[i]), 'diag': dgi, 'univariate': marg_name(model.univariates[i]),
+                         'distinct_values': int(len(np.unique(cols[i]))),
                          'raw_min': float(np.min(cols[i])), 'raw_max': float(np.max(cols[i])),
                          'score_min': float(np.nanmin(s)) if not np.isnan(s).all() else 'nan',
                          'score_max': float(np.nanmax(s)) if not np.isnan(s).all() else 'nan'},
@@ -441,27 +493,36 @@ def oracle(names, cols, spec):
     if not cfinal <= 1.0 / sys.float_info.epsilon:
         out.append(('fit:singular-not-regularised', {'cond': cfinal, 'eig_min': float(ev[0])},
                     'a numerically singular correlation (cond > 1/eps) is regularised'))
-    # entry = Pearson correlation of the scores (independent two-pass formula)
+    # entry = Pearson correlation of the INDEPENDENTLY recomputed clipped normal scores
+    # (fitted cdf -> clip with the property's epsilon -> norm.ppf -> two-pass Pearson = np.corrcoef)
     with np.errstate(all='ignore'):
-        if np.isfinite(S).all():
-            Z = S - S.mean(axis=0)
+        if np.isfinite(Sref).all():
+            Z = Sref - Sref.mean(axis=0)
             ss = np.sqrt((Z * Z).sum(axis=0))
-            kap = np.sqrt((S * S).sum(axis=0)) / np.where(ss > 0, ss, 1.0)     # conditioning of the centring
+            sconst = Sref.max(axis=0) == Sref.min(axis=0)                     # 0/0 -> NaN -> 0
+            kap = np.sqrt((Sref * Sref).sum(axis=0)) / np.where(ss > 0, ss, 1.0)   # conditioning of the centring
+            worst = None
             for i in range(k):
                 for j in range(k):
-                    if i == j or ss[i] == 0 or ss[j] == 0:
+                    if sconst[i] or sconst[j]:
+                        r = 0.0
+                    elif kap[i] > 1e4 or kap[j] > 1e4 or ss[i] == 0 or ss[j] == 0:
                         continue
-                    if kap[i] > 1e4 or kap[j] > 1e4:
-                        continue
-                    r = float((Z[:, i] * Z[:, j]).sum() / (ss[i] * ss[j]))
-                    if abs(r - C[i, j]) > 1e-9 * (1 + kap[i] ** 2 + kap[j] ** 2):
-                        out.append(('fit:entry-not-pearson-of-scores', {'i': i, 'j': j, 'real': float(C[i, j]),
-                                                                        'pearson': r},
-                                    'entry = Pearson correlation of the normal scores'))
-                        break
-                else:
-                    continue
-                break
+                    else:
+                        r = float((Z[:, i] * Z[:, j]).sum() / (ss[i] * ss[j]))
+                    tol = RIDGE_TOL + 1e-9 * (kap[i] ** 2 + kap[j] ** 2) if not (sconst[i] or sconst[j]) else RIDGE_TOL
+                    err = abs(r - float(C[i, j]))
+                    if err > tol and (worst is None or err > worst[0]):
+                        worst = (err, i, j, r)
+            if worst is not None:
+                err, i, j, r = worst
+                out.append(('fit:entry-not-pearson-of-clipped-scores',
+                            {'i': repr(names[i]), 'j': repr(names[j]), 'real': float(C[i, j]),
+                             'pearson_of_clipped_scores': r, 'abs_diff': err,
+                             'score_i_range': [float(Sref[:, i].min()), float(Sref[:, i].max())],
+                             'score_j_range': [float(Sref[:, j].min()), float(Sref[:, j].max())]},
+                            'each entry = Pearson correlation of the two columns after fitted marginal cdf, clip to '
+                            '[EPSILON, 1-EPSILON], standard normal quantile (NaN -> 0; diagonal up to the ridge)'))
     # sampling / density after regularisation
     try:
         with np.errstate(all='ignore'), warnings.catch_warnings():
@@ -484,6 +545,37 @@ def oracle(names, cols, spec):
         out.append(('pdf:raises', f'{type(e).__name__}: {str(e)[:160]}',
                     'density evaluation works after regularisation'))
     return out
+
+
+PROP_EPS = float(np.finfo(np.float32).eps)     # the property's clip: copulas.utils.EPSILON = 2^-23 ("order 1e-7")
+
+
+def reference_scores(model, X):
+    """fitted marginal cdf -> clip [eps, 1-eps] -> standard normal quantile, per TRAINING column in order;
+    independent of GaussianMultivariate._transform_to_normal."""
+    from scipy import stats
+    out = []
+    with np.errstate(all='ignore'):
+        for nm, u in zip(list(X.columns), model.univariates):
+            uu = np.asarray(u.cdf(X[nm].to_numpy()), dtype=float)
+            out.append(stats.norm.ppf(np.clip(uu, PROP_EPS, 1.0 - PROP_EPS)))
+    return np.column_stack(out)
+
+
+def in_constant_mode(u):
+    """the fitted univariate behaves as the degenerate point mass."""
+    inst = getattr(u, '_instance', None) or u
+    if getattr(inst, '_constant_value', None) is not None:
+        return True
+    if any(m in getattr(inst, '__dict__', {}) for m in ('cumulative_distribution', 'percent_point')):
+        return True
+    params = getattr(inst, '_params', None)
+    if isinstance(params, dict) and 'scale' in params:
+        try:
+            return float(params['scale']) == 0.0
+        except Exception:  # noqa
+            return False
+    return False
 
 
 def marg_name(u):
@@ -550,7 +642,36 @@ def fixed_probes():
         (['x', 'k'], [a, np.full(25, 0.0)], ['default'], ['probe:default-constant']),
         (['u', 'v', 'w'], [b, a, a + b], ['str', 'GaussianKDE'], ['probe:rank-deficient']),
         (['p', 'q'], [p, 2 * p + 0.5 * b], ['class', 'BetaUnivariate'], ['probe:beta-offset']),
+    ] + tiny_and_outlier_probes()
+
+
+def tiny_and_outlier_probes():
+    """non-constant columns with tiny relative / absolute spread, and far-tail observations."""
+    r = np.random.RandomState(5)
+    n = 120
+    x = r.normal(size=n)
+    y = 0.7 * x + 0.5 * r.normal(size=n)
+    seconds = np.round(3 * 3600 * (0.5 + 0.2 * x + 0.1 * r.normal(size=n)))
+    g, u = ['class', 'GaussianUnivariate'], ['class', 'UniformUnivariate']
+    out = [
+        (['x', 'timestamp', 'y'], [x, 1.7e9 + seconds, y], g, ['probe:tinyspread-epoch']),
+        (['serial', 'x'], [5e8 + 3.0 * np.arange(n), x], u, ['probe:tinyspread-serial']),
+        (['x', 'current', 'y'], [x, 1e-9 * (3 + y), y], g, ['probe:tinyspread-nano']),
+        (['k', 'level', 'x'], [np.full(n, 7.0), 1000.0 + 1e-3 * y, x], g, ['probe:tinyspread-level']),
+        (['level', 'x'], [1000.0 + 1e-3 * y, x], ['str', 'GaussianKDE'], ['probe:tinyspread-level-kde']),
     ]
+    for seed, m, outl, spec in ((2, 300, [('a', 0, 10 + 2 * 6.9)], g), (3, 400, [('b', 1, -7.4)], g),
+                                (5, 300, [('b', 1, 7.0)],
+                                 ['dict', {"'a'": u, "'b'": g, "'c'": g}])):
+        rr = np.random.RandomState(seed)
+        a = rr.normal(size=m)
+        bb = 0.6 * a + 0.8 * rr.normal(size=m)
+        c = -0.3 * a + rr.normal(size=m)
+        cols = [10 + 2 * a, bb, 100 * c]
+        for row, (_, ci, val) in enumerate(outl):
+            cols[ci][row] = val
+        out.append((['a', 'b', 'c'], cols, spec, ['probe:outlier']))
+    return out
 
 
 def search(ctx, deep):
@@ -589,7 +710,7 @@ def search(ctx, deep):
                            obs, req, cls)
     ctx.support = {'tables_checked': checked, 'failures': found, 'deep': deep,
                    'oracle': 'finite, symmetric, range, diagonal, constant columns, eigvalsh>=-1e-9, cond<=1/eps, labels, '
-                             'entry=pearson(scores), sample(5)/probability_density do not raise / no NaN'}
+                             'entry=pearson(independently recomputed clipped scores), sample(5)/probability_density do not raise / no NaN'}
 
 
 def replay(ctx, payload):
